@@ -16,6 +16,9 @@ def sh(cmd, cwd=None, timeout=3600):
                        env={**os.environ, "CARGO_NET_OFFLINE": "true"})
     return p.returncode, p.stdout + p.stderr
 
+REPO = os.environ.get("SEED_REPO", "/repo")      # tree the change is applied to
+VERIF = os.environ.get("SEED_VERIF", "/verif")   # checks that are run against it (a copy made by mk_eval_copy.sh, or /verif)
+
 def main():
     pid, n = sys.argv[1], sys.argv[2]
     checks = [pid]
@@ -70,18 +73,20 @@ def main():
     meta["suite_passes_with_change"] = suite_passes
     meta["demo_fails_with_change"] = demo_fails_changed
     # ---- 2. run our checks against it
-    rc, o = sh("git diff --quiet", cwd="/repo")
-    assert rc == 0, "/repo is dirty"
+    rc, o = sh("git diff --quiet", cwd=REPO)
+    assert rc == 0, REPO + " is dirty"
     results = {}
-    rc, o = sh(f"git apply {patch}", cwd="/repo")
-    assert rc == 0, "patch does not apply to /repo: " + o
+    rc, o = sh(f"git apply {patch}", cwd=REPO)
+    assert rc == 0, f"patch does not apply to {REPO}: " + o
+    if REPO != "/repo":
+        meta["evaluated_in"] = f"scratch worktree {REPO} of /repo HEAD with the change applied; checks run from a copy of /verif's working tree ({VERIF}) whose harness depends on that worktree"
     try:
         for c in checks:
-            ev = f"/verif/evidence/{c}.json"
+            ev = f"{VERIF}/evidence/{c}.json"
             bak = ev + ".bak"
             if os.path.exists(ev): shutil.copy(ev, bak)
             t0 = time.time()
-            rc, o = sh(f"./check {c} {tier}", cwd="/verif", timeout=7200)
+            rc, o = sh(f"./check {c} {tier}", cwd=VERIF, timeout=7200)
             dt = time.time() - t0
             if os.path.exists(bak): shutil.move(bak, ev)
             sig = [l for l in o.splitlines() if l.startswith("FAILURE sig=")]
@@ -89,7 +94,7 @@ def main():
                           "signature": sig[0][len("FAILURE sig="):] if sig else None, "wall_s": round(dt, 1),
                           "tail": "\n".join(o.splitlines()[-6:])}
     finally:
-        sh("git checkout -- .", cwd="/repo")
+        sh("git checkout -- .", cwd=REPO)
     meta["checks"] = results
     # ---- 3. store
     d = f"/verif/seeded/{pid}-{n}"
